@@ -49,11 +49,19 @@ Definition calendar_bucket_secs (week_start : Z) (secs : Z) (g : gran) : Z :=
   | GYear => let '(y, _, _) := civil_from_days day in days_from_civil y 1 1 * 86400
   end.
 
-(** [CalendarTimeBucketer::bucket_of(ts, gran)]: u64 in, u64 out *)
-Definition calendar_bucket_of (week_start : Z) (ts : Z) (g : gran) : Z :=
+(** [CalendarTimeBucketer::bucket_of(ts, gran)]: u64 in, u64 out.  [None]: the week
+    start would fall before chrono's first date and [NaiveDate - Duration] panics. *)
+Definition calendar_bucket_of_opt (week_start : Z) (ts : Z) (g : gran) : option Z :=
   let secs := u64_to_i64 ts in
   let secs' := if in_chrono_range secs then secs else 0 in
-  i64_to_u64 (calendar_bucket_secs week_start secs' g).
+  let b := calendar_bucket_secs week_start secs' g in
+  match g with
+  | GWeek => if b / 86400 <? chrono_min_day then None else Some (i64_to_u64 b)
+  | _ => Some (i64_to_u64 b)
+  end.
+
+Definition calendar_bucket_of (week_start : Z) (ts : Z) (g : gran) : Z :=
+  match calendar_bucket_of_opt week_start ts g with Some b => b | None => 0 end.
 
 (** start of the next bucket (used by the alignment theorems) *)
 Definition calendar_next_secs (week_start : Z) (secs : Z) (g : gran) : Z :=
